@@ -383,6 +383,14 @@ func load(cmdline, environ, envprefix []string, props *properties.Properties) (c
 		return nil, fmt.Errorf("glob.cache.size must not be larger than %d", maxGlobCacheSize)
 	}
 
+	// the prometheus client panics on the first observation when
+	// the histogram buckets are not strictly increasing
+	for i, b := range cfg.Metrics.Prometheus.Buckets {
+		if i > 0 && !(cfg.Metrics.Prometheus.Buckets[i-1] < b) {
+			return nil, fmt.Errorf("metrics.prometheus.buckets must be in increasing order")
+		}
+	}
+
 	if cfg.Registry.Consul.AllowStale && cfg.Registry.Consul.RequireConsistent {
 		return nil, fmt.Errorf("registry.consul.allowStale and registry.consul.requireConsistent cannot both be true")
 	}
